@@ -233,23 +233,48 @@ def gen_dir():
 
 def gen_sources():
     """Translators for tabular source, regenerated from the repository on every run."""
-    import gen_constants, gen_accessors
+    import gen_constants, gen_accessors, gen_formulas
     with Lock("gen" + repo_tag()):
         items, n_all = gen_constants.main(REPO, gen_dir())
         accs, ctors = gen_accessors.main(REPO, gen_dir())
-    return {"constants": items, "n_pub_const": n_all, "accessors": accs, "ctors": ctors}
+        try:
+            flines = gen_formulas.main(REPO, gen_dir(), {it[0]: (int(it[1]), int(it[2])) for it in items})
+            ferr = None
+        except gen_formulas.ParseError as ex:
+            # leave no stale table behind: the theorems over it must fail, not pass on old text
+            try: os.remove(os.path.join(gen_dir(), "GenFormulas.v"))
+            except OSError: pass
+            flines, ferr = None, str(ex)
+    return {"constants": items, "n_pub_const": n_all, "accessors": accs, "ctors": ctors, "formulas": flines, "formulas_error": ferr}
 
 
 def compile_gen_theorems(name, extra_gen=()):
-    """Compile build/gen/*.v and coq/gen_theorems/<name>.v against them; returns (ok, output)."""
+    """Compile build/gen/*.v and coq/gen_theorems/<name>.v against them; returns (ok, output).
+    The result is a pure function of the generated tables, the theorem file and the compiled development, so it is cached under
+    a hash of exactly those inputs (the translators themselves run on every check)."""
     g = gen_dir()
     with Lock("gen" + repo_tag()):
+        h = hashlib.sha1()
+        for f in sorted(os.listdir(g)):
+            if f.endswith(".v"):
+                h.update(f.encode()); h.update(open(os.path.join(g, f), "rb").read())
+        h.update(open(os.path.join(COQ, "gen_theorems", name + ".v"), "rb").read())
+        for root, _, files in os.walk(os.path.join(COQ, "theories")):
+            for f in sorted(files):
+                if f.endswith(".v") and ("Model" in root or "Num" in root or "Proofs" in root):
+                    h.update(open(os.path.join(root, f), "rb").read())
+        cdir = os.path.join(BUILD, "gen_cache"); os.makedirs(cdir, exist_ok=True)
+        cfile = os.path.join(cdir, "%s_%s.out" % (name, h.hexdigest()[:20]))
+        if os.path.exists(cfile):
+            return True, open(cfile).read()
         for f in sorted(os.listdir(g)):
             if f.endswith(".v"):
                 p = sh("timeout 600 coqc -Q %s/theories RRTK -Q . Gen %s" % (COQ, f), cwd=g, check=False)
                 if p.returncode != 0:
                     return False, p.stdout
-        p = sh("timeout 900 coqc -Q theories RRTK -Q %s Gen -w -all gen_theorems/%s.v" % (g, name), cwd=COQ, check=False)
+        p = sh("timeout 1800 coqc -Q theories RRTK -Q %s Gen -w -all gen_theorems/%s.v" % (g, name), cwd=COQ, check=False, timeout=1900)
+        if p.returncode == 0:
+            open(cfile, "w").write(p.stdout)
     return p.returncode == 0, p.stdout
 
 
